@@ -81,10 +81,10 @@ struct reference_wrapper {
     ///
     /// \returns The return value of the called function.
     template <typename... Args>
-    constexpr auto operator()(Args&&... args) const noexcept(noexcept(invoke(get(), etl::forward<Args>(args)...)))
+    constexpr auto operator()(Args&&... args) const noexcept(noexcept(etl::invoke(get(), etl::forward<Args>(args)...)))
         -> invoke_result_t<T&, Args...>
     {
-        return invoke(get(), etl::forward<Args>(args)...);
+        return etl::invoke(get(), etl::forward<Args>(args)...);
     }
 
 private:
